@@ -23,7 +23,7 @@ ASSUMPTIONS = ["files/ is a real directory; info/ is a real directory or (indire
 
 LINKS = ["abs_file", "abs_dir", "rel_file", "rel_dir", "dangling", "dir_slash", "root", "parent"]
 SPECIAL = ["none", "none", "none", "double_suffix", "newline", "dot_trashinfo", "info_symlink",
-           "payload_is_files_name"]
+           "payload_is_files_name", "pct_traversal"]
 
 
 def examples(tier):
@@ -108,6 +108,10 @@ def run_case(case):
             name = ""
         elif sp == "payload_is_files_name":
             name = "files"
+        elif sp == "pct_traversal":
+            # an info file whose NAME, if percent-decoded, would walk out of files/ to a precious
+            # file; it has no payload of its own
+            name = "..%2F" * 10 + "precious%2F" + ("file" if i % 2 else "dir")
         special_seen.add(sp)
         tw.ensure_tdir(tdir, base)
         orig = (base.rstrip("/") if base else home) + "/w/" + (e["name"] or "x")
@@ -123,7 +127,7 @@ def run_case(case):
             tw.nodes.append({"p": ip, "t": "l", "to": "/precious/foreign%d.trashinfo" % i})
         else:
             tw.nodes.append({"p": ip, "t": "b", "b": list(info), "m": 0o600})
-        if name != "":
+        if name != "" and sp != "pct_traversal":
             if e["kind"] == "link":
                 tw.nodes.append({"p": pp, "t": "l", "to": link_target(e["link"], tdir.count("/"))})
                 link_kinds.add(e["link"])
